@@ -28,6 +28,9 @@ type (
 		childSubQuery  string
 		children       []regexVariant
 		isPrecondition bool
+		// the regex contains empty-width assertions: it has to see the data
+		// as it is, cutting the buffer would change what it matches
+		contextSensitive bool
 	}
 	regex struct {
 		occurence []occ
@@ -68,6 +71,8 @@ type (
 		variant map[string]int
 		// flags for this progress
 		flags progressVariantFlag
+		// the regex must be run on the uncut buffer, see regexVariant
+		contextSensitive bool
 	}
 	variantResult struct {
 		variant   map[string]int
@@ -284,6 +289,9 @@ func (dcc *dataConditionsContainer) finalize(r *Reader, queryPartIndex int, prev
 			if r.root.regex, err = binaryregexp.Compile(e.Regex); err != nil {
 				return nil, err
 			}
+			if r.root.contextSensitive, err = regexanalysis.HasEmptyWidth(e.Regex); err != nil {
+				return nil, err
+			}
 			prefix, complete := r.root.regex.LiteralPrefix()
 			r.root.prefix = []byte(prefix)
 			if complete {
@@ -386,6 +394,9 @@ func (dcc *dataConditionsContainer) finalize(r *Reader, queryPartIndex int, prev
 
 				var err error
 				if root.regex, err = binaryregexp.Compile(regex); err != nil {
+					return nil, err
+				}
+				if root.contextSensitive, err = regexanalysis.HasEmptyWidth(regex); err != nil {
 					return nil, err
 				}
 				prefix, complete := root.regex.LiteralPrefix()
@@ -514,6 +525,11 @@ func (dcc *dataConditionsContainer) finalize(r *Reader, queryPartIndex int, prev
 
 func (p *progressVariant) find(buffers [2][]byte, dir uint8) []int {
 	buffer := buffers[dir][p.streamOffset[dir]:]
+	if p.contextSensitive {
+		// none of the shortcuts below is valid when the regex looks at the
+		// bytes around a position: they move the begin or the end of the buffer
+		return p.regex.FindSubmatchIndex(buffer)
+	}
 	if uint(len(buffer)) < p.acceptedLength.MinLength {
 		return nil
 	}
@@ -594,6 +610,7 @@ func (ps *progressGroup) prepare(r *regex, pIdx int, e *query.DataConditionEleme
 			p.prefix = root.prefix
 			p.suffix = root.suffix
 			p.acceptedLength = root.acceptedLength
+			p.contextSensitive = root.contextSensitive
 			if root.isPrecondition {
 				p.flags = progressVariantFlagStatePrecondition
 			} else {
@@ -709,6 +726,9 @@ func (ps *progressGroup) prepare(r *regex, pIdx int, e *query.DataConditionEleme
 	var err error
 	if p.regex, err = binaryregexp.Compile(expr); err != nil {
 		return p, err
+	}
+	if p.contextSensitive, err = regexanalysis.HasEmptyWidth(expr); err != nil {
+		return nil, err
 	}
 	prefix, complete := p.regex.LiteralPrefix()
 	root.prefix = []byte(prefix)
